@@ -45,11 +45,31 @@ whose fields mix the three layouts (case['wl'] = ['mixed-par']), (c) with probab
 >= 2-record field of every other parsed case, histories included.  Judgement is the ordinary one: all
 records exposed in order under the documented names, dump() returns, the dumped text re-parses to the same
 records (whatever layout the dump chooses).
+
+Token alphabet - invisible / format characters: tokens of every sub-field column (hash, size, name, section,
+priority, date, filename) may carry a character that is NOT whitespace for str.split() / str.isspace() and not a
+line boundary, yet is the kind of character a well-meaning decoder or normaliser deletes or alters: U+FEFF,
+U+200B, U+200C, U+200D, U+2060, U+00AD, U+0301 (core; thorough adds directional marks, variation selectors,
+further combining marks, U+FFFE / U+FFFF, tag characters ...), at the start, in the middle, at the end of the
+token, as the whole token, or at both ends.  Driven (a) enumerated: every configuration x structured field x
+sub-field column x character x position x {parsed text, built object} (case['wl'] = ['inv-enum', ...]; input
+form, dump route, text layout and carrying record rotate deterministically), (b) paragraphs with many such tokens
+(['inv-par']), (c) with probability INV_P in every other generated token, history mutations included (a quarter
+of the histories with a raised share).  Judgement is the ordinary one: the records exposed / re-read are the
+records written, character for character; the size column is padded to the documented width counted in
+characters (len()), whatever the characters are.
+
+Position of the longest size: for every configuration x structured field x 2..6 records the strictly longest
+size token is put in the FIRST record only / the LAST record only / one MIDDLE record only (['lpos', field, n,
+where]); every judged dump of every workload counts where the strictly longest size of each >= 2-record field sat
+(longest:* per dump, align:longest:* once every dumped line of the field passed the column check).
 """
 import copy
 import io
 import itertools
+import json
 import random
+import re
 
 from ..models import mvrecords as mv
 
@@ -79,6 +99,24 @@ RULE = ('One case = one paragraph of one class (Dsc, Changes, BuildInfo, PdiffIn
         'other parsed case, so that it also occurs under every enumerated presence subset, in every input form (str, bytes, '
         'line lists, file objects, PGP-armoured) and as the starting point of histories (in-place edits of the list parsed '
         'from such a field included).  '
+        '(d) INVISIBLE / FORMAT CHARACTERS IN TOKENS: characters that are no whitespace for str.split() / str.isspace(), no line '
+        'boundary for str.splitlines() and encodable in UTF-8 - U+FEFF, U+200B, U+200C, U+200D, U+2060, U+00AD, U+0301 (quick '
+        'enumeration) plus U+200E/F, U+034F, U+FE0F, U+180E, U+061C, U+2061/3/4, U+FFFE, U+FFFF, U+0300, U+0308, U+20DD, U+E0001, '
+        'U+E0100, U+FFF9, U+202A/E, U+2066/9 (thorough enumeration; sampled in quick) - at the start / in the middle (a combining '
+        'mark mostly right after a base letter it composes with) / at the end of a token, as the whole token, or at both ends; '
+        'enumerated for every configuration (Release apt-ftparchive and dak, Dsc, Changes, BuildInfo, PdiffIndex incl. the '
+        'X-Unmerged twins) x structured field x sub-field column (hash, size, name, section, priority, date, filename) x character '
+        'x position x {parsed text, built object}, with the input form (str, bytes, line lists with / without newline, text file '
+        'object, bytes file object, PGP-armoured), the dump route (dump() -> str, dump(fd) binary, dump(fd, text_mode=True)), the '
+        'text layout of the field (single / one or several continuation lines / mixed) and the record that carries the token '
+        '(first / last / middle / any) rotated so that every (configuration, input form), (character, input form), (position, '
+        'input form) and (character, dump route) pair occurs; plus paragraphs in which 15..80 % of all tokens carry one, plus a '
+        'share of 0.6 % of all tokens of every other workload (30 % in a quarter of the histories, mutation arguments included).  '
+        '(e) POSITION OF THE LONGEST SIZE: for every configuration x structured field x exactly 2, 3, 4, 5, 6 records, the '
+        'strictly longest size token sits in the first record only, the last record only, or one middle record only (other sizes '
+        'strictly shorter: unrelated lengths / all one shorter / all of length 1; longest 2..20 characters, so also 16, 17, 18 '
+        'around the fixed width), parsed text and built object; every judged dump of every workload counts the position of the '
+        'strictly longest size per >= 2-record field.  '
         'A single-dump case is non-trivial when at least one structured field of the class is absent and at least one present '
         'field has >= 2 records; a history is non-trivial when it has >= 2 judged dumps and that condition held at one of them.')
 ASSUMPTIONS = [
@@ -108,6 +146,19 @@ ASSUMPTIONS = [
     '(the records exposed by the mutated object itself, e.g. int vs str sizes, are not compared)',
     'histories: fields are addressed with any letter case of the field name (mappings are documented case-insensitive); which spelling '
     'a dump prints is not judged; record sub-fields are addressed by their documented names only',
+    'invisible / format characters: the statement quantifies over whitespace-free tokens; U+FEFF, U+200B..U+200D, U+2060, U+00AD, '
+    'combining marks, directional marks, variation selectors, tag characters and the noncharacters U+FFFE / U+FFFF are not whitespace '
+    '(str.isspace() is False, str.split() keeps them inside the token, str.splitlines() does not break at them), so a token that '
+    'contains them - or consists of them only - is inside the domain and must come back character for character; no Unicode '
+    'normalisation form is assumed on either side (e + U+0301 is not the same token as U+00E9).  The alphabet is filtered at import '
+    'time by exactly those three tests plus a UTF-8 encode/decode round trip on the running interpreter, so a character that a '
+    'different Unicode database treats as whitespace or a lone surrogate is never generated.  Confirmed on the unchanged tree '
+    'before judging: all input forms and all three dump routes return such tokens unchanged',
+    'size column width is counted in characters (len() of the size token as written), also when the size token carries zero-width or '
+    'combining characters or non-ASCII digits: "the longest size present" / "16" are taken as lengths of the token string, not display '
+    'cells and not encoded bytes (that is what the unchanged tree does and what makes the column a fixed number of characters)',
+    'position of the longest size: nothing new is demanded - the documented width (16, or the longest size present) holds wherever the '
+    'longest size sits; the counters only make sure first-only / last-only / middle-only x 2..6 records were dumped and column-checked',
     'histories: a mutation through the public API that raises is reported (history-mutation-raises/...): every mutation used is plain '
     'mapping/list/attribute use on values inside the domain, and size_field_behavior is only ever set to its two documented values',
 ]
@@ -133,11 +184,22 @@ HIST = {'quick': 6000, 'thorough': 200000}      # histories (one object, 2..4 du
 MIXED_P = 0.25                                  # share of >= 2-record fields of ANY parsed text written that way
 MIXED_REPS = {'quick': 10, 'thorough': 150}     # fillings per (config, structured field, record count 2..4)
 MIXED_PAR = {'quick': 2000, 'thorough': 60000}  # paragraphs mixing the three layouts across their fields
+# invisible / format characters inside tokens
+INV_REPS = {'quick': 1, 'thorough': 6}          # per (config, field, sub-field column, character, position, mode)
+INV_PAR = {'quick': 1600, 'thorough': 50000}    # paragraphs with many such tokens
+# position of the strictly longest size among 2..6 records
+LPOS_REPS = {'quick': 2, 'thorough': 40}        # per (config, field, record count, position of the longest, mode)
 
 # ~50% of what the unchanged (repaired) tree measures: quick = minimum over VERIF_SEED 0..3, thorough = seed 0.
 # has-absent-field is counted per judged dump.  The hist:* / pdiff:* floors make a run that never drives the
 # history / PdiffIndex-form classes INCONCLUSIVE instead of held; the form:mixed / mixed:* / mixed-enum:* / mixed-par:*
-# / M.mixed* floors do the same for the mixed text layout (first record on the field line + continuation lines).
+# / M.mixed* floors do the same for the mixed text layout (first record on the field line + continuation lines);
+# the inv:* / inv-enum:* / inv-par:* / M.inv* floors for tokens with invisible / format characters (per character,
+# position, column, configuration x input form, dump route ...; measured counters are floored only where the
+# minimum is >= 40 (quick) / 60 (thorough), so sparsely sampled extras cannot flake); the lpos:* / longest:* /
+# align:longest:* / M.align.longest floors for the position of the strictly longest size (first / last / middle
+# x 2..6 records).  The literal is generated from evidence files (50 % of the measured minimum, 2 digits kept);
+# the deterministic enumerations get their floors programmatically (MIXED-FLOORS below, INV-/LPOS-FLOORS further down).
 FLOORS = {'quick': {'nontrivial': 11000,
                     'monitors': {'M': 14000, 'M.parse': 8100, 'M.dump': 19000, 'M.reparse': 19000, 'M.align': 140000,
                                  'M.hist': 8300, 'M.mixed': 7500, 'M.mixed.dump': 5800},
@@ -233,6 +295,97 @@ HOSTILE_ATOMS = ['#', ':', '-', '-----BEGIN', 'PGP', '=', '\\', 'Files:', '.', '
                  'name', 'md5sum']
 HEXLEN = {'md5sum': 32, 'md5': 32, 'sha1': 40, 'sha256': 64, 'sha512': 128}
 
+# ---------------------------------------------------------------------------
+# invisible / format characters: NOT whitespace for str.split() / str.isspace(), not line boundaries for
+# str.splitlines(), encodable in UTF-8 - so they are ordinary token characters for the property - yet the kind of
+# character a well-meaning decoder / normaliser deletes or alters (BOM, zero-width space / joiners, word joiner,
+# soft hyphen, combining marks, directional marks, variation selectors, noncharacters).
+_INV_CORE = ['\ufeff', '\u200b', '\u200c', '\u200d', '\u2060', '\u00ad', '\u0301']
+_INV_EXTRA = ['\u200e', '\u200f', '\u034f', '\ufe0f', '\u180e', '\u061c', '\u2061', '\u2063', '\u2064', '\ufffe',
+              '\uffff', '\u0300', '\u0308', '\u20dd', '\U000e0001', '\U000e0100', '\ufff9', '\u202a', '\u202e',
+              '\u2066', '\u2069']
+INV_COMBINING = frozenset(['\u0301', '\u0300', '\u0308', '\u20dd'])
+
+
+def _inv_usable(ch):
+    """In the domain on THIS interpreter: one token for str.split(), one line for str.splitlines(), no
+    str.isspace() character, encodable and decodable in UTF-8."""
+    try:
+        ok = ch.encode('utf-8').decode('utf-8') == ch
+    except UnicodeError:
+        return False
+    probe = 'a' + ch + 'b'
+    return (ok and mv.is_ws_free_token(ch) and probe.split() == [probe] and probe.splitlines() == [probe]
+            and (ch + 'b').split() == [ch + 'b'] and ('a' + ch).split() == ['a' + ch])
+
+
+INV_CORE = [c for c in _INV_CORE if _inv_usable(c)]
+INV_EXTRA = [c for c in _INV_EXTRA if _inv_usable(c)]
+INV_ALL = INV_CORE + INV_EXTRA
+INV_SET = frozenset(INV_ALL)
+INV_RE = re.compile('[%s]' % ''.join(INV_ALL))
+INV_POS = ('start', 'mid', 'end', 'whole', 'both')
+INV_P = 0.006          # share of ALL generated tokens (every workload, history mutations included) that carry one
+INV_WHICH = ('first', 'last', 'mid', 'any')
+
+
+def inv_name(ch):
+    return 'U+%04X' % ord(ch)
+
+
+def inv_inject(r, tok, ch, pos):
+    """`tok` with the invisible character `ch` at the start / in the middle / at the end; 'whole' = the token
+    consists of invisible characters only; 'both' = at the start and at the end.  A combining mark in the
+    middle mostly follows a base letter it composes with under NFC (e + U+0301)."""
+    if pos == 'start':
+        return ch + tok
+    if pos == 'end':
+        return tok + ch
+    if pos == 'both':
+        return ch + tok + (ch if r.random() < 0.5 else r.choice(INV_CORE))
+    if pos == 'whole':
+        return ch if r.random() < 0.6 else ch + r.choice(INV_CORE)
+    if len(tok) < 2:
+        tok = tok + tok
+    k = r.randint(1, len(tok) - 1)
+    base = ''
+    if ch in INV_COMBINING and not tok.isdigit() and r.random() < 0.6:
+        base = r.choice('aeiounAEO')
+    return tok[:k] + base + ch + tok[k:]
+
+
+def inv_positions(tok):
+    """Where the invisible characters of a token sit (classification from the token itself)."""
+    flags = [c in INV_SET for c in tok]
+    if all(flags):
+        return ['whole']
+    out = []
+    if flags[0]:
+        out.append('start')
+    if any(flags[1:-1]):
+        out.append('mid')
+    if flags[-1]:
+        out.append('end')
+    if flags[0] and flags[-1]:
+        out.append('both')
+    return out
+
+
+def inv_scan(recs_by_field, table):
+    """[(field, record index, record count, sub-field name, token)] for every token with an invisible character."""
+    out = []
+    for f, recs in recs_by_field.items():
+        for i, rec in enumerate(recs):
+            for name, tok in zip(table[f], rec):
+                if INV_RE.search(tok):
+                    out.append((f, i, len(recs), name, tok))
+    return out
+
+
+def inv_fields(recs_by_field):
+    """Fields whose current records carry an invisible character in some token."""
+    return set(f for f, recs in recs_by_field.items() if any(INV_RE.search(t) for rec in recs for t in rec))
+
 
 # ---------------------------------------------------------------------------
 # generators
@@ -247,7 +400,17 @@ def gen_size(r):
     return r.choice('123456789') + ''.join(r.choice('0123456789') for _ in range(n - 1))
 
 
-def gen_token(r, sub):
+def gen_token(r, sub, inv_p=None):
+    s = _gen_token(r, sub)
+    if r.random() < (INV_P if inv_p is None else inv_p):
+        ch = r.choice(INV_CORE) if r.random() < 0.7 else r.choice(INV_ALL)
+        s = inv_inject(r, s, ch, r.choice(['start', 'mid', 'mid', 'end', 'whole', 'both']
+                                          if sub != 'size' else ['start', 'mid', 'mid', 'end', 'end', 'both']))
+        assert mv.is_ws_free_token(s), s
+    return s
+
+
+def _gen_token(r, sub):
     k = r.random()
     if sub == 'size':
         return gen_size(r)
@@ -270,8 +433,8 @@ def gen_token(r, sub):
     return s
 
 
-def gen_records(r, subs, n):
-    return [[gen_token(r, sub) for sub in subs] for _ in range(n)]
+def gen_records(r, subs, n, inv_p=None):
+    return [[gen_token(r, sub, inv_p) for sub in subs] for _ in range(n)]
 
 
 def spell(r, field):
@@ -337,6 +500,44 @@ def mix_size_lengths(r, recs):
         rec[1] = size_of_len(r, n)
 
 
+LPOS_WHERE = ('first', 'last', 'middle')
+LPOS_N = (2, 3, 4, 5, 6)
+
+
+def set_longest(r, recs, where):
+    """Make ONE record (the first / the last / a middle one) carry the strictly longest size token (in place).
+    The other sizes are strictly shorter: unrelated lengths, all one shorter, or all of length 1."""
+    n = len(recs)
+    longest = r.choice([2, 3, 4, 5, 7, 9, 12, 15, 16, 16, 17, 18, 20])
+    idx = 0 if where == 'first' else (n - 1 if where == 'last' else r.randint(1, n - 2))
+    style = r.random()
+    for i, rec in enumerate(recs):
+        if i == idx:
+            rec[1] = size_of_len(r, longest)
+        elif style < 0.3:
+            rec[1] = size_of_len(r, longest - 1)
+        elif style < 0.4:
+            rec[1] = size_of_len(r, 1)
+        else:
+            rec[1] = size_of_len(r, r.randint(1, longest - 1))
+
+
+def longest_where(recs):
+    """Position of the strictly longest size token of >= 2 records: 'first' / 'last' / 'middle', or 'tie'."""
+    lens = [len(x[1]) for x in recs]
+    m = max(lens)
+    at = [i for i, n in enumerate(lens) if n == m]
+    if len(at) != 1:
+        return 'tie'
+    if at[0] == 0:
+        return 'first'
+    return 'last' if at[0] == len(recs) - 1 else 'middle'
+
+
+def nrec_tag(n):
+    return 'n%d' % n if n <= 6 else 'n7+'
+
+
 PD_CURRENT = ('sha1-current', 'sha256-current')
 
 
@@ -344,21 +545,31 @@ def pd_is_3col(f):
     return f.endswith(('-history', '-patches', '-download'))
 
 
-def gen_case(r, clsname, behavior, subset, mode, big=False, tweak=None, force=None):
+def gen_case(r, clsname, behavior, subset, mode, big=False, tweak=None, force=None, inv_p=None, inject=None,
+             lpos=None, input_form=None, dump_via=None):
     """tweak (PdiffIndex only): 'pd-current-list' forces SHA*-Current present as >= 2 records with sizes of
     different lengths; 'pd-single3' forces text mode with 1..3 History/Patches/Download fields whose only
     record sits on the field line.
     force (any class): {field: [form, nrecords]} - text mode, these fields present with exactly that text
-    layout ('single' / 'multi' / 'mixed') and record count."""
+    layout ('single' / 'multi' / 'mixed') and record count.
+    inv_p: share of the record tokens of this case that carry an invisible / format character (default INV_P).
+    inject: [field, sub-field index, character, position, which record ('first' / 'last' / 'mid' / 'any')] - the
+    field is present and that token of that record carries the invisible character at that position.
+    lpos: {field: [nrecords, where]} - the field is present with exactly that many (>= 2) records and the
+    strictly longest size token sits in the first / the last / a middle record."""
     table = mv.DOC[clsname]
     present = list(subset)
     force_single, mixed = set(), set()
     force = force or {}
+    lpos = lpos or {}
     if force:
         mode = 'text'
         for f in sorted(force):
             if f not in present:
                 present.append(f)
+    for f in sorted(lpos) + ([inject[0]] if inject else []):
+        if f not in present:
+            present.append(f)
     if tweak == 'pd-current-list':
         for f in r.sample(PD_CURRENT, r.choice([1, 2])):
             if f not in present:
@@ -382,6 +593,8 @@ def gen_case(r, clsname, behavior, subset, mode, big=False, tweak=None, force=No
             counts[f] = r.choice([2, 2, 3, 4])
         if f in force_single:
             counts[f] = 1
+        if f in lpos:
+            counts[f] = lpos[f][0]
         if f in force:
             counts[f] = force[f][1]
     if present and r.random() < 0.85 and max(counts.values()) < 2:
@@ -391,9 +604,21 @@ def gen_case(r, clsname, behavior, subset, mode, big=False, tweak=None, force=No
     items = []
     expect = {}
     for f in present:
-        recs = gen_records(r, table[f], counts[f])
+        recs = gen_records(r, table[f], counts[f], inv_p)
         if f in mixed:
             mix_size_lengths(r, recs)
+        if f in lpos:
+            set_longest(r, recs, lpos[f][1])
+        if inject and f == inject[0]:
+            _, col, ch, pos, which = inject
+            n = len(recs)
+            i = (0 if which == 'first' else n - 1 if which == 'last' else
+                 r.randint(1, n - 2) if (which == 'mid' and n >= 3) else r.randrange(n))
+            tok = recs[i][col]
+            if INV_RE.search(tok):
+                tok = _gen_token(r, table[f][col])
+            recs[i][col] = inv_inject(r, tok, ch, pos)
+            assert mv.is_ws_free_token(recs[i][col])
         expect[f] = recs
         items.append([spell(r, f), 'records', f, recs])
     plain = r.sample(mv.PLAIN[clsname], r.randint(1, min(3, len(mv.PLAIN[clsname]))))
@@ -416,6 +641,8 @@ def gen_case(r, clsname, behavior, subset, mode, big=False, tweak=None, force=No
         if clsname in ('Dsc', 'Changes', 'BuildInfo'):
             inputs.append('signed')
         case['input'] = r.choice(inputs)
+        if input_form:
+            case['input'] = input_form
         if case['input'] == 'signed':
             text = sign(text)
         elif r.random() < 0.15:
@@ -429,6 +656,8 @@ def gen_case(r, clsname, behavior, subset, mode, big=False, tweak=None, force=No
         case['rectype'] = r.choice(['dict', 'dict', 'deb822dict'])
         case['int_sizes'] = r.random() < 0.25
     case['dump_via'] = r.choice(['str', 'str', 'str', 'fd_bytes', 'fd_text'])
+    if dump_via:
+        case['dump_via'] = dump_via
     return case
 
 
@@ -514,7 +743,7 @@ def gen_new_size(r, recs, bias):
     return gen_size(r)
 
 
-def gen_mutation(r, clsname, state):
+def gen_mutation(r, clsname, state, inv_p=None):
     table = mv.DOC[clsname]
     present = sorted(state['recs'])
     absent = [f for f in sorted(table) if f not in state['recs']]
@@ -541,7 +770,7 @@ def gen_mutation(r, clsname, state):
     if kind in ('reassign', 'add-absent'):
         f = r.choice(present if kind == 'reassign' else absent)
         n = r.choice([1, 2, 2, 3, 4])
-        recs = gen_records(r, table[f], n)
+        recs = gen_records(r, table[f], n, inv_p)
         old = state['recs'].get(f, [])
         bias = r.choice(['longer', 'shorter', 'mixed', 'random'])
         if bias == 'longer' and old:
@@ -557,8 +786,9 @@ def gen_mutation(r, clsname, state):
         return ['delete', spell(r, f), f, r.choice(['del', 'del', 'pop'])]
     if kind in ('append', 'insert'):
         f = r.choice(lists)
-        rec = gen_records(r, table[f], 1)[0]
-        rec[1] = gen_new_size(r, state['recs'][f], r.choice(['longer', 'longer', 'shorter', 'random']))
+        rec = gen_records(r, table[f], 1, inv_p)[0]
+        if not INV_RE.search(rec[1]):
+            rec[1] = gen_new_size(r, state['recs'][f], r.choice(['longer', 'longer', 'shorter', 'random']))
         if kind == 'append':
             return ['append', spell(r, f), f, rec, rectype, as_int]
         return ['insert', spell(r, f), f, r.randint(0, len(state['recs'][f])), rec, rectype, as_int]
@@ -579,14 +809,17 @@ def gen_mutation(r, clsname, state):
             idx, tok = r.choice(longest), gen_new_size(r, recs, 'shorter')
         else:
             idx, tok = r.randrange(len(recs)), gen_new_size(r, recs, 'random')
+        if r.random() < (INV_P if inv_p is None else inv_p):
+            tok = inv_inject(r, tok, r.choice(INV_CORE), r.choice(['start', 'mid', 'end']))
         return ['set', spell(r, f), f, idx, 'size', tok, as_int]
     subs = [x for x in table[f] if x != 'size']
     sub = r.choice(subs)
-    return ['set', spell(r, f), f, r.randrange(len(recs)), sub, gen_token(r, sub), False]
+    return ['set', spell(r, f), f, r.randrange(len(recs)), sub, gen_token(r, sub, inv_p), False]
 
 
 def gen_history(r, clsname, behavior):
-    """One object, 2..4 dumps, 0..3 public-API mutations before each dump."""
+    """One object, 2..4 dumps, 0..3 public-API mutations before each dump.  One history in four draws its
+    tokens (initial records and mutation arguments) with a raised share of invisible / format characters."""
     table = mv.DOC[clsname]
     fields = sorted(table)
     p = r.choice([0.2, 0.5, 0.5, 0.8, 1.0])
@@ -594,7 +827,8 @@ def gen_history(r, clsname, behavior):
     tweak = None
     if clsname == 'PdiffIndex':
         tweak = r.choice([None, None, 'pd-current-list', 'pd-single3'])
-    case = gen_case(r, clsname, behavior, sub, r.choice(['text', 'build']), tweak=tweak)
+    inv_p = r.choice([None, None, None, 0.3])
+    case = gen_case(r, clsname, behavior, sub, r.choice(['text', 'build']), tweak=tweak, inv_p=inv_p)
     del case['dump_via']
     state = initial_state(case)
     ops = []
@@ -605,7 +839,7 @@ def gen_history(r, clsname, behavior):
         else:
             nmut = 0 if r.random() < 0.06 else r.choice([1, 1, 1, 2, 2, 3])
         for _ in range(nmut):
-            op = gen_mutation(r, clsname, state)
+            op = gen_mutation(r, clsname, state, inv_p)
             model_apply(state, op, table)
             ops.append(op)
         ops.append(['dump', r.choice(VIAS)])
@@ -656,6 +890,84 @@ def mixed_enumerated():
     return out
 
 
+INPUT_FORMS = ['str', 'bytes', 'lines', 'lines_nonl', 'file', 'bfile', 'str']
+DUMP_VIAS = ['str', 'fd_bytes', 'fd_text']
+
+
+def input_forms_of(clsname):
+    return INPUT_FORMS + (['signed'] if clsname in ('Dsc', 'Changes', 'BuildInfo') else [])
+
+
+def inv_chars(tier):
+    return INV_CORE if tier == 'quick' else INV_ALL
+
+
+def inv_enumerated(tier):
+    """(clsname, behavior, field, column, character, position, mode, (fc, ci, pi)) for every sub-field column of
+    every structured field of every configuration x every invisible character x start / mid / end plus one of
+    whole / both x {text, build}; (fc, ci, pi) = running indices of column, character and position, from which
+    inv_knobs() rotates input form, dump route, carrying record and text layout."""
+    out = []
+    chars = inv_chars(tier)
+    for clsname, behavior in mv.CONFIGS:
+        fc = 0
+        for f in sorted(mv.DOC[clsname]):
+            for col in range(len(mv.DOC[clsname][f])):
+                for ci, ch in enumerate(chars):
+                    for pi in range(4):
+                        pos = INV_POS[pi] if pi < 3 else INV_POS[3 + (fc + ci) % 2]
+                        for mode in ('text', 'build'):
+                            out.append((clsname, behavior, f, col, ch, pos, mode, (fc, ci, pi)))
+                fc += 1
+    return out
+
+
+def inv_knobs(clsname, fc, ci, pi, rep):
+    """Deterministic rotation of input form, dump route, which record carries the token and (text) the layout
+    of the field, arranged so that every (configuration, input form), (character, input form), (position,
+    input form), (character, dump route), (position, layout) and (layout, carrying record) combination occurs
+    within one repetition, and further repetitions shift every knob."""
+    forms = input_forms_of(clsname)
+    return {'input': forms[(ci + pi + 3 * fc + rep) % len(forms)],
+            'via': DUMP_VIAS[(ci + pi + fc + rep) % 3],
+            'which': INV_WHICH[(fc + ci + pi // 2 + rep // 2) % 4],
+            'layout': (ci + 2 * pi + fc + rep) % 4,
+            'n': 2 + (fc + ci + pi + rep // 4) % 3}
+
+
+def gen_inv_enum_case(r, item, rep=0):
+    clsname, behavior, f, col, ch, pos, mode, (fc, ci, pi) = item
+    knobs = inv_knobs(clsname, fc, ci, pi, rep)
+    others = [x for x in sorted(mv.DOC[clsname]) if x != f]
+    p = r.choice([0.0, 0.15, 0.5, 0.85])
+    sub = [x for x in others if r.random() < p]
+    inject = [f, col, ch, pos, knobs['which']]
+    if mode == 'text':
+        n = knobs['n']
+        force = {f: [['single', 1], ['multi', 1], ['multi', n], ['mixed', n]][knobs['layout']]}
+        case = gen_case(r, clsname, behavior, sub, 'text', force=force, inject=inject,
+                        input_form=knobs['input'], dump_via=knobs['via'])
+    else:
+        case = gen_case(r, clsname, behavior, sub, 'build', inject=inject, dump_via=knobs['via'])
+    case['wl'] = ['inv-enum', f, mv.DOC[clsname][f][col], inv_name(ch), pos]
+    return case
+
+
+def lpos_enumerated():
+    """(clsname, behavior, field, nrecords, where, mode): every structured field of every configuration x
+    2..6 records x the strictly longest size in the first / the last / a middle record x {text, build}."""
+    out = []
+    for clsname, behavior in mv.CONFIGS:
+        for f in sorted(mv.DOC[clsname]):
+            for n in LPOS_N:
+                for where in LPOS_WHERE:
+                    if where == 'middle' and n < 3:
+                        continue
+                    for mode in ('text', 'build'):
+                        out.append((clsname, behavior, f, n, where, mode))
+    return out
+
+
 def gen_mixed_paragraph(r, clsname, behavior):
     """One parsed paragraph with >= 2 structured fields, at least one of them in the mixed layout and (mostly)
     the others in the two classic layouts."""
@@ -682,6 +994,24 @@ def gen_mixed_paragraph(r, clsname, behavior):
     return gen_case(r, clsname, behavior, [], 'text', force=force)
 
 
+# INV-FLOORS / LPOS-FLOORS: both enumerations are deterministic - demand half of what they must produce, per
+# (configuration, structured field, sub-field column), per (character, position) and per (configuration,
+# position of the longest size, record count), so that a run which skips SOME column / character / position
+# is INCONCLUSIVE, not held.
+def _enum_floors():
+    import collections
+    for tier in ('quick', 'thorough'):
+        want = collections.Counter()
+        for (clsname, behavior, f, col, ch, pos, mode, _) in inv_enumerated(tier):
+            want['inv-enum:field:%s:%s:%s' % (tag_of(clsname, behavior), f, mv.DOC[clsname][f][col])] += INV_REPS[tier]
+            want['inv-enum:char-pos:%s:%s' % (inv_name(ch), pos)] += INV_REPS[tier]
+        for (clsname, behavior, f, n, where, mode) in lpos_enumerated():
+            want['lpos:%s:%s:%s' % (tag_of(clsname, behavior), where, nrec_tag(n))] += LPOS_REPS[tier]
+        for k, v in want.items():
+            FLOORS[tier]['counters'][k] = v // 2
+
+
+
 def setup(ctx):
     ctx.extra['exhaustive_subspaces'] = [
         'presence subsets: all 16 subsets of the 4 structured fields of Dsc, Changes, BuildInfo, Release(apt-ftparchive), '
@@ -689,7 +1019,12 @@ def setup(ctx):
         'presence subsets: all subsets of size <= %d of PdiffIndex\'s 14 structured fields, the full set and all 13-subsets, '
         'each in text and build mode' % PD_MAXK[ctx.tier],
         'mixed text layout (first record on the field line, further records on continuation lines): every structured '
-        'field of every configuration x 2, 3 and 4 records, %d fillings each' % MIXED_REPS[ctx.tier]]
+        'field of every configuration x 2, 3 and 4 records, %d fillings each' % MIXED_REPS[ctx.tier],
+        'invisible / format characters: every configuration x structured field x sub-field column x each of %d characters (%s) x '
+        'position start / mid / end + one of whole / both-ends x {parsed text, built object}, %d filling(s) each'
+        % (len(inv_chars(ctx.tier)), ' '.join(inv_name(c) for c in inv_chars(ctx.tier)), INV_REPS[ctx.tier]),
+        'position of the strictly longest size: every configuration x structured field x 2..6 records x first-only / '
+        'last-only / one-middle-only x {parsed text, built object}, %d fillings each' % LPOS_REPS[ctx.tier]]
 
 
 def cases(ctx):
@@ -735,6 +1070,36 @@ def cases(ctx):
         case = gen_mixed_paragraph(r, clsname, behavior)
         case['wl'] = ['mixed-par']
         yield case
+    # invisible / format characters inside tokens: enumerated (column x character x position x mode), then
+    # paragraphs in which many tokens carry one
+    i = 0
+    for item in inv_enumerated(ctx.tier):
+        for rep in range(INV_REPS[ctx.tier]):
+            if ctx.mine(i):
+                yield gen_inv_enum_case(ctx.rng('inv-enum', i), item, rep)
+            i += 1
+    r = ctx.rng('inv-par')
+    for i in range(ctx.size(INV_PAR['quick'], INV_PAR['thorough'])):
+        clsname, behavior = mv.CONFIGS[i % len(mv.CONFIGS)]
+        fields = sorted(mv.DOC[clsname])
+        p = r.choice([0.15, 0.5, 0.5, 0.85, 1.0])
+        sub = [f for f in fields if r.random() < p] or [r.choice(fields)]
+        case = gen_case(r, clsname, behavior, sub, r.choice(['text', 'build']), inv_p=r.choice([0.15, 0.4, 0.8]))
+        case['wl'] = ['inv-par']
+        yield case
+    # position of the strictly longest size among 2..6 records (first / last / a middle record)
+    i = 0
+    for (clsname, behavior, f, n, where, mode) in lpos_enumerated():
+        for rep in range(LPOS_REPS[ctx.tier]):
+            if ctx.mine(i):
+                rr = ctx.rng('lpos', i)
+                others = [x for x in sorted(mv.DOC[clsname]) if x != f]
+                p = rr.choice([0.0, 0.15, 0.5, 0.85])
+                sub = [x for x in others if rr.random() < p]
+                case = gen_case(rr, clsname, behavior, sub, mode, lpos={f: [n, where]})
+                case['wl'] = ['lpos', f, n, where]
+                yield case
+            i += 1
     # histories: one object, several dumps
     r = ctx.rng('history')
     for i in range(ctx.size(HIST['quick'], HIST['thorough'])):
@@ -817,6 +1182,10 @@ def do_dump(obj, via):
     return obj.dump()
 
 
+def tag_of(clsname, behavior):
+    return clsname if not behavior else '%s-%s' % (clsname, behavior)
+
+
 def dump_key(clsname, behavior, exc, absent, singles):
     tag = clsname.lower() if behavior is None else '%s-%s' % (clsname.lower(), behavior)
     if isinstance(exc, KeyError) and exc.args and str(exc.args[0]).lower() in absent:
@@ -840,19 +1209,32 @@ def check_alignment(ctx, clsname, behavior, txt, expect, suffix=''):
             ctx.count('align:skipped-line-count')     # decided by the re-parse check, not here
             continue
         width = mv.expected_width(clsname, behavior, [rec[1] for rec in recs])
+        where = longest_where(recs) if len(recs) >= 2 else None
+        judged = 0
         for line, rec in zip(lines, recs):
             col = mv.size_column(line)
             if col is None or col[0] != rec[0] or col[2] != rec[1]:
                 ctx.count('align:skipped-tokens')
                 continue
             ctx.mon('M.align')
+            judged += 1
+            inv_size = bool(INV_RE.search(rec[1]))
+            if inv_size:
+                ctx.mon('M.inv.align')
             want = max(0, width - len(rec[1]))
             if col[1] != want:
                 which = '16' if (clsname == 'Release' and behavior == 'apt-ftparchive') else 'longest'
-                ctx.violation('size-column-not-right-aligned-to-%s%s' % (which, suffix),
-                              '%s(%s) field %r: dumped line %r pads the size %r with %d spaces, documented width %d needs %d'
-                              % (clsname, behavior, f, line, rec[1], col[1], width, want))
+                ctx.violation('size-column-not-right-aligned-to-%s%s%s'
+                              % (which, '/size-with-invisible-character' if inv_size else '', suffix),
+                              '%s(%s) field %r: dumped line %r pads the size %r with %d spaces, documented width %d '
+                              '(in characters) needs %d; %d records, strictly longest size in: %s'
+                              % (clsname, behavior, f, line, rec[1], col[1], width, want, len(recs), where))
                 return False
+        if where and judged == len(recs):
+            # every line of a >= 2-record field judged: the position of the longest size was exercised AND judged
+            ctx.mon('M.align.longest')
+            ctx.count('align:longest:%s:%s' % (where, nrec_tag(len(recs))))
+            ctx.count('align:longest:%s:%s' % (tag_of(clsname, behavior), where))
     return True
 
 
@@ -932,6 +1314,13 @@ def dump_and_judge(ctx, cls, clsname, obj, state, via, origin, suffix=''):
     mixed = sorted(state['mixed'])
     if mixed:
         ctx.mon('M.mixed.dump')
+    invf = inv_fields(expect)
+    if invf:
+        ctx.count('inv:dump:%s:%s' % (tag_of(clsname, behavior), origin))
+        ctx.count('inv:dump-via:%s' % via)
+    for f, recs in expect.items():
+        if len(recs) >= 2 and state['form'][f] == 'list':
+            ctx.count('longest:%s:%s:%s' % (tag_of(clsname, behavior), longest_where(recs), nrec_tag(len(recs))))
     ctx.mon('M.dump')
     try:
         txt = do_dump(obj, via)
@@ -958,11 +1347,15 @@ def dump_and_judge(ctx, cls, clsname, obj, state, via, origin, suffix=''):
     bad = compare_records(obj2, table, expect)
     if bad:
         where = '/field-parsed-from-mixed-layout' if bad[0] in mixed else ''
+        if bad[0] in invf:
+            where += '/token-with-invisible-character'
         ctx.violation('roundtrip-%s-%s%s%s' % (origin, bad[1], where, suffix),
                       '%s(%s): dump -> parse: %s; dumped=%r%s'
                       % (clsname, behavior, bad[2], txt,
                          '; fields parsed from first-record-on-field-line + continuation lines: %r' % mixed if mixed else ''))
         return False
+    if invf:
+        ctx.mon('M.inv.dump')
     return True
 
 
@@ -978,6 +1371,8 @@ def run_history(ctx, deb822, cls, clsname, obj, state, ops, origin):
         if op[0] != 'dump':
             kind = op_kind(op, state)
             ctx.count('hist:op:%s' % kind)
+            if INV_RE.search(json.dumps(op, ensure_ascii=False)):
+                ctx.count('inv:hist-op:%s' % kind)
             if op[0] in ('append', 'insert', 'pop', 'set'):
                 ctx.count('hist:op:in-place(any)')
                 if op[2] in state['mixed']:
@@ -1070,6 +1465,77 @@ def count_mixed(ctx, case, mixed):
         ctx.count('mixed-par:case')
 
 
+def count_inv(ctx, case, scan):
+    """Coverage counters of the invisible-character class, classified from the case itself; `scan` =
+    inv_scan() of the records the case starts from."""
+    clsname = case['cls']
+    cfg = tag_of(clsname, case['behavior'])
+    text = case['mode'] == 'text'
+    ctx.count('inv:case')
+    ctx.count('inv:config:%s' % cfg)
+    ctx.count('inv:mode:%s' % case['mode'])
+    ctx.count('inv:kind:%s' % ('history' if 'ops' in case else 'single-dump'))
+    if text:
+        ctx.count('inv:input:%s' % case['input'])
+        ctx.count('inv:config-input:%s:%s' % (cfg, case['input']))
+    else:
+        ctx.count('inv:rectype:%s' % case.get('rectype'))
+        if case.get('int_sizes'):
+            ctx.count('inv:build-with-int-sizes')
+    chars, poss, charpos, cols, layouts, recpos = set(), set(), set(), set(), set(), set()
+    for (f, i, n, name, tok) in scan:
+        ctx.count('inv:token')
+        cs = set(tok) & INV_SET
+        chars |= cs
+        ps = inv_positions(tok)
+        poss.update(ps)
+        if len(cs) == 1:
+            for c in cs:
+                charpos.update((c, p) for p in ps)
+        names = mv.DOC[clsname][f]
+        cols.add('size' if name == 'size' else ('first-column' if name == names[0] else name.lower()))
+        recpos.add('only' if n == 1 else ('first' if i == 0 else ('last' if i == n - 1 else 'middle')))
+        if name == 'size' and clsname in mv.ALIGNED:
+            ctx.count('inv:size-token-in-aligned-class')
+        if text:
+            form = case['forms'][f]
+            layouts.add(form)
+            on_field_line = form == 'single' or (form == 'mixed' and i == 0)
+            if name == names[0] and 'start' in ps + (['start'] if ps == ['whole'] else []):
+                ctx.count('inv:adjacent:line-%s-starts-with-invisible'
+                          % ('after-field-name' if on_field_line else 'after-leading-space'))
+            if name == names[-1] and ('end' in ps or ps == ['whole']):
+                ctx.count('inv:adjacent:line-ends-with-invisible')
+                if case.get('last_item') == f and i == n - 1:
+                    ctx.count('inv:adjacent:paragraph-ends-with-invisible')
+    ctx.count('inv:fields-with-invisible:%s' % min(len(set(x[0] for x in scan)), 3))
+    for c in chars:
+        ctx.count('inv:char:%s' % inv_name(c))
+        ctx.count('inv:char-mode:%s:%s' % (inv_name(c), case['mode']))
+        if text:
+            ctx.count('inv:char-input:%s:%s' % (inv_name(c), case['input']))
+    for p in poss:
+        ctx.count('inv:pos:%s' % p)
+        if text:
+            ctx.count('inv:pos-input:%s:%s' % (p, case['input']))
+    for (c, p) in charpos:
+        ctx.count('inv:char-pos:%s:%s' % (inv_name(c), p))
+    for c in cols:
+        ctx.count('inv:column:%s' % c)
+    for c in recpos:
+        ctx.count('inv:record:%s' % c)
+    for c in layouts:
+        ctx.count('inv:layout:%s' % c)
+    wl = case.get('wl')
+    if wl and wl[0] == 'inv-enum':
+        ctx.count('inv-enum:case')
+        ctx.count('inv-enum:field:%s:%s:%s' % (cfg, wl[1], wl[2]))
+        ctx.count('inv-enum:char-pos:%s:%s' % (wl[3], wl[4]))
+        ctx.count('inv-enum:mode:%s' % case['mode'])
+    elif wl and wl[0] == 'inv-par':
+        ctx.count('inv-par:case')
+
+
 def run_case(ctx, case):
     from debian import deb822
     clsname = case['cls']
@@ -1098,14 +1564,21 @@ def run_case(ctx, case):
         mixed = sorted(f for f, form in case['forms'].items() if form == 'mixed')
         if mixed:
             count_mixed(ctx, case, mixed)
+        scan = inv_scan(expect, table)
+        if scan:
+            count_inv(ctx, case, scan)
         bad = compare_records(obj, table, expect)
         if bad:
             where = '/first-record-on-field-line-plus-continuation-lines' if bad[0] in mixed else ''
+            if any(x[0] == bad[0] for x in scan):
+                where += '/token-with-invisible-character'
             ctx.violation('parse-%s%s' % (bad[1], where),
                           '%s(%s input): %s; text=%r' % (clsname, case['input'], bad[2], case['text']))
             return
         if mixed:
             ctx.mon('M.mixed', len(mixed))
+        if scan:
+            ctx.mon('M.inv', len(scan))
     else:
         obj = cls()
         if case['behavior']:
@@ -1124,6 +1597,16 @@ def run_case(ctx, case):
                               '%s()[%r] = <list of %d records> raised %r' % (clsname, key, len(built), e))
                 return
         ctx.count('rectype:%s' % case.get('rectype'))
+        scan = inv_scan(dict((it[2], it[3]) for it in case['items'] if it[1] == 'records'), table)
+        if scan:
+            count_inv(ctx, case, scan)
+            ctx.mon('M.inv', len(scan))
+
+    wl = case.get('wl')
+    if wl and wl[0] == 'lpos':
+        ctx.count('lpos:case')
+        ctx.count('lpos:%s:%s:%s' % (tag_of(clsname, case['behavior']), wl[3], nrec_tag(wl[2])))
+        ctx.count('lpos:mode:%s:%s' % (mode, wl[3]))
 
     state = initial_state(case)
     origin = 'parsed' if mode == 'text' else 'built'
@@ -1153,3 +1636,5 @@ LEVEL_NOTE = ('Trusted: CPython, vp.models.mvrecords (documented tables, 10-line
 TECHNIQUE = ('runtime monitoring: boundary oracle M (record model) on parse / dump / re-parse of the live classes over enumerated '
              'presence subsets and random record lists; column monitor on the dumped lines; model-based histories '
              '(mutate through the public API, re-dump, re-judge) on one live object')
+
+_enum_floors()
